@@ -1,6 +1,6 @@
 (* C16 — property theorems (statements only; proofs are in C16/Proofs.v) *)
-From Coq Require Import ZArith QArith List Bool.
-From PPV Require Import Base.QN C16.Model C16.Proofs.
+From Coq Require Import ZArith QArith Qabs List Bool.
+From PPV Require Import Base.QN Base.QC C16.Model C16.Proofs C16.Balance C16.VmLimits.
 Import ListNotations.
 Open Scope Q_scope.
 
@@ -138,3 +138,101 @@ Example C16_nonvacuous :
   /\ fixed_gen KLoad {| e_p := 1; e_q := 0; e_scaling := 1; e_min_p := Some 0; e_max_p := Some 2; e_min_q := None;
                         e_max_q := None; e_ctrl := None |} = false.
 Proof. repeat split. Qed.
+
+(* ================================================================ "the reported results are a valid power flow"
+   opf_g: the OPF's power-balance constraints [Re mis; Im mis] at every bus (opf_consfcn), pf_F: the equations of the power
+   flow [Re mis[pv]; Re mis[pq]; Im mis[pq]] (newtonpf), both  V conj(Ybus V) - Sbus  with Sbus = makeSbus of the respective ppc:
+   sb_opf — controllable sgens / loads / storages are generator rows with PG = rsign * p, fixed ones are bus demand;
+   sb_pf  — the ppc of the power flow that takes the dispatch as setpoints: gens keep p, every sgen / load / storage is bus
+   demand with its result power, the Q of gens / ext_grids and the P of ext_grids are whatever the power flow holds (l_xp, l_xq).
+   If the OPF's final V satisfies every balance constraint within eps, the SAME V satisfies every equation of that power flow
+   within eps: any network, any element mix, any number of elements per bus, in / out of service. *)
+Theorem C16_opf_point_is_pf_point : forall base nb Y V els pv pq eps,
+  (forall i, In i pv \/ In i pq -> (i < nb)%nat /\ no_ext_at els i) ->
+  (forall i, In i pq -> no_vctrl_at els i) ->
+  Forall (fun x => Qabs x <= eps) (opf_g nb Y V (sb_opf base els)) ->
+  Forall (fun x => Qabs x <= eps) (pf_F Y V (sb_pf base els) pv pq).
+Proof. exact opf_point_is_pf_point. Qed.
+Print Assumptions C16_opf_point_is_pf_point.
+
+(* hence the power flow's own convergence test (norm(F, inf) < tol) accepts the OPF's V *)
+Theorem C16_opf_point_passes_pf_test : forall base nb Y V els pv pq eps tol,
+  (forall i, In i pv \/ In i pq -> (i < nb)%nat /\ no_ext_at els i) ->
+  (forall i, In i pq -> no_vctrl_at els i) ->
+  Forall (fun x => Qabs x <= eps) (opf_g nb Y V (sb_opf base els)) -> 0 <= eps -> eps < tol ->
+  pf_converged (pf_F Y V (sb_pf base els) pv pq) tol = true.
+Proof. exact opf_point_passes_pf_test. Qed.
+Print Assumptions C16_opf_point_passes_pf_test.
+
+(* the Sbus of the two calculations: equal active part at every bus without an ext_grid, equal reactive part at every bus
+   without a gen / ext_grid *)
+Theorem C16_sbus_same_function : forall base els i,
+  (no_ext_at els i -> re (sb_pf base els i) == re (sb_opf base els i)) /\
+  (no_vctrl_at els i -> im (sb_pf base els i) == im (sb_opf base els i)).
+Proof. exact (fun base els i => conj (sbus_re_eq base els i) (sbus_im_eq base els i)). Qed.
+Print Assumptions C16_sbus_same_function.
+
+(* what the power flow reports for the voltage-controlling elements of a bus (computed injection plus demand, pfsoln) differs
+   from their OPF dispatch by exactly baseMVA times the OPF's mismatch at that bus: slack P and generator Q are reproduced
+   within baseMVA * eps *)
+Theorem C16_pf_reports_opf_infeed : forall base Y V els i, ~ base == 0 ->
+  let reported := Cadd (Cscale base (calc_inj Y V i)) (dem_sum_pf els i) in
+  Csub reported (gen_sum els i) ==c Cscale base (mis_at Y V (sb_opf base els) i).
+Proof. exact pf_reports_opf_infeed. Qed.
+Print Assumptions C16_pf_reports_opf_infeed.
+
+Example C16_balance_nonvacuous :
+  (forall i, In i [] \/ In i [1%nat] -> (i < 2)%nat /\ no_ext_at ex_els i) /\
+  (forall i, In i [1%nat] -> no_vctrl_at ex_els i) /\
+  sb_opf 1 ex_els 1 ==c mkC (-1) (- (1 # 4)) /\ sb_pf 1 ex_els 1 ==c mkC (-1) (- (1 # 4)) /\
+  ~ sb_pf 1 ex_els 0 ==c sb_opf 1 ex_els 0.
+Proof. exact balance_nonvacuous. Qed.
+
+(* ================================================================ voltage limits of controllable ext_grids and of gens
+   ext_grid.controllable: every fixed (in service, not controllable) ext_grid pins its bus to its OWN vm_pu, controllable and
+   out-of-service ones write nothing — for any index labels *)
+Theorem C16_eg_writes_own : forall egs, eg_writes egs = Some (eg_writes_spec egs).
+Proof. exact eg_writes_own. Qed.
+Print Assumptions C16_eg_writes_own.
+(* regression: the rule before the repair (vm_pu.values[index label]) held only when the labels are the positions; otherwise
+   it read the voltage of another ext_grid or raised *)
+Theorem C16_eg_writes_old_partial : forall egs, G16eg_old egs = true -> eg_writes_old egs = Some (eg_writes_spec egs).
+Proof. exact eg_writes_old_partial. Qed.
+Print Assumptions C16_eg_writes_old_partial.
+Theorem C16_eg_writes_old_refuted :
+  eg_writes_old eg_swapped = Some [(0%nat, 51 # 50); (2%nat, 1)] /\ eg_writes_spec eg_swapped = [(0%nat, 1); (2%nat, 51 # 50)] /\
+  eg_writes_old [ {| x_label := 3; x_bus := 0; x_vm := 1; x_on := true; x_ctrl := Some false |} ] = None.
+Proof. exact eg_writes_old_refuted. Qed.
+Print Assumptions C16_eg_writes_old_refuted.
+
+(* gen.max_vm_pu: the upper limit handed to the OPF at a bus respects the bus limit and the max_vm_pu of EVERY in-service gen
+   at that bus (none of them NaN), any number of gens per bus, any order *)
+Theorem C16_gen_vmax_all : forall lims gens b lo0 hi0,
+  nth_error lims b = Some (lo0, Some hi0) ->
+  (forall g, In g gens -> fst (fst g) = b -> exists m, snd (fst g) = Some m) ->
+  exists v, nth b (fold_left (gen_vmax_step lims) gens lims) (None, None) = (lo0, Some v) /\ v <= hi0 /\
+    forall g m, In g gens -> fst (fst g) = b -> snd (fst g) = Some m -> v <= m.
+Proof. exact gen_vmax_all. Qed.
+Print Assumptions C16_gen_vmax_all.
+(* regression: before the repair (plain assignment, last gen wins) this held only with one in-service gen per bus *)
+Theorem C16_gen_vmax_old_partial : forall lims gens b mx mn hi0 lo0,
+  G16vm_old gens = true -> In (b, Some mx, mn) gens -> nth_error lims b = Some (lo0, Some hi0) ->
+  exists v, nth b (fold_left (gen_vmax_step_old lims) gens lims) (None, None) = (lo0, Some v) /\ v <= hi0 /\ v <= mx /\
+            (v == hi0 \/ v == mx).
+Proof. exact gen_vmax_old_partial. Qed.
+Print Assumptions C16_gen_vmax_old_partial.
+Theorem C16_gen_vmax_old_refuted :
+  exists lims gens b mx mn, In (b, Some mx, mn) gens /\
+    exists v, nth b (gen_vm_limits_old lims gens true false) (None, None) = (Some (19 # 20), Some v) /\ mx < v.
+Proof. exact gen_vmax_old_refuted. Qed.
+Print Assumptions C16_gen_vmax_old_refuted.
+Theorem C16_gen_vmax_witness_repaired :
+  nth 1%nat (gen_vm_limits [(Some (19 # 20), Some (11 # 10)); (Some (19 # 20), Some (11 # 10))]
+                           [(1%nat, Some (103 # 100), None); (1%nat, Some (105 # 100), None)] true false) (None, None)
+  = (Some (19 # 20), Some (103 # 100)).
+Proof. exact gen_vmax_witness_repaired. Qed.
+Example C16_vm_limits_nonvacuous :
+  G16vm_old [(1%nat, Some (103 # 100), None); (2%nat, Some (105 # 100), None)] = true /\
+  G16eg_old [ {| x_label := 0; x_bus := 0; x_vm := 1; x_on := true; x_ctrl := Some false |};
+              {| x_label := 1; x_bus := 2; x_vm := 51 # 50; x_on := true; x_ctrl := Some true |} ] = true.
+Proof. exact vm_limits_nonvacuous. Qed.
